@@ -288,6 +288,41 @@ def work_repeat(job):
     return r
 
 
+WWORD = re.compile(rb'(?<![A-Za-z0-9])w\d+(?![A-Za-z0-9])')
+
+
+def work_docs(job):
+    """structured generated documents (nested lists with continuation paragraphs, wrapped lines, quotes, tables, notes): every body word of the
+    source must be in every writer's output -- a parser that silently restarts drops whole blocks without any diagnostic"""
+    from lib import gendoc
+    seed, lo, hi = job
+    r = core.JobResult()
+    with core.Session(r) as s:
+        for i in range(lo, hi):
+            rng = core.job_rng(seed, ID, 'docs', i)
+            g = gendoc.Gen(rng, sentinels=True, features=set(['emph', 'strong', 'code', 'link', 'esc', 'break', 'softbreak', 'quote', 'list', 'deep-items', 'tight-children', 'codeblock', 'rule',
+                                                               'heading', 'table', 'deflist', 'footnote', 'nested-footnote']))
+            doc = g.doc(nblocks=rng.randint(2, 6))
+            src = gendoc.serialize(doc, gendoc.Spelling(rng, eol=rng.choice(['\n', '\n', '\r\n']))).encode('utf-8')
+            want = set(WWORD.findall(src))
+            for fmt in (F['html'], F['latex'], F['fodt'], F['opml']):
+                ext = D.EXT_CLI
+                case = dict(requests=[D.req_to_json('asan', 'CONVERT', fmt, ext, 0, 2 | (1 << 4), [src])])
+                rep = s.call('asan', 'CONVERT', fmt, ext, 0, 2 | (1 << 4), [src], what='[structured document]', hang_is_violation=True, crash_is_violation=False)
+                r.evaluations += 1
+                r.stats['conversions_structured_documents'] += 1
+                if rep is None:
+                    continue
+                judge_reply(r, rep, src, fmt, ext, case, 'docs')
+                have = set(WWORD.findall(rep.out))
+                missing = sorted(want - have)
+                if missing:
+                    r.violate('dropped:document:%s' % D.FMT_NAME[fmt], '%d of %d body words of a structured document are missing from the %s output (first: %s)' % (len(missing), len(want), D.FMT_NAME[fmt], missing[0].decode()),
+                              case, core.show(src, 700))
+            r.distinct.add(core.h64('doc', src))
+    return r
+
+
 def replay_known(chk):
     r = core.JobResult()
     with core.Session(r) as s:
@@ -307,7 +342,7 @@ def main():
     L = 4 if chk.thorough else 3
     total = sum(K ** l for l in range(1, L + 1))
     chk.rule = ('(a) ALL sequences of length 1..%d over %d line-kind representatives (%d sequences), (b) random sequences of length 5-30, '
-                '(c) hostile byte strings, (d) all sequences of length <= 2 (3 thorough) with no final line ending, (e) N copies of each of 18 small blocks, N up to 2000 (5000); each x 7 writers (html latex beamer memoir fodt opml itmz) x {MMD, compatibility}. '
+                '(c) hostile byte strings, (d) all sequences of length <= 2 (3 thorough) with no final line ending, (e) N copies of each of 18 small blocks, N up to 2000 (5000), (f) structured generated documents whose every body word must be rendered; each x 7 writers (html latex beamer memoir fodt opml itmz) x {MMD, compatibility}. '
                 'distinct = distinct line-kind sequences / distinct (bytes, ext) inputs; every one is non-trivial (>=1 line, 14 conversions judged)' % (L, K, total))
     chk.assumptions = ['one representative text per line kind (exhaustive over representatives, not over all texts of a kind)',
                        'sentinel presence is demanded only for kinds/format pairs the documentation promises to render, and never after an absorbing kind']
@@ -324,6 +359,8 @@ def main():
     te = sum(K ** l for l in range(1, Le + 1))
     stepe = max(50, te // 64)
     chk.run_jobs(work_eof, [(chk.seed, lo, min(te, lo + stepe), Le) for lo in range(0, te, stepe)])
+    nd = chk.scale(1600, 60000)
+    chk.run_jobs(work_docs, [(chk.seed, lo, min(nd, lo + 25)) for lo in range(0, nd, 25)])
     counts = gen.REPEAT_COUNTS if chk.thorough else [100, 999, 1000, 1100, 2000]
     chk.run_jobs(work_repeat, [(chk.seed, ui, n) for ui in range(len(gen.REPEAT_UNITS)) for n in counts])
     chk.coverage_extra['exhaustive'] = True
